@@ -16,3 +16,6 @@ open Verif.Props.C05
 #print axioms known_degenerate_witness
 #print axioms known_traildot_witness
 #print axioms fixed_regressions
+#print axioms path_lex_roundtrip_items
+#print axioms path_lex_roundtrip
+#print axioms path_parse_roundtrip
